@@ -331,3 +331,82 @@ Section WholeRefusal.
     exists pseats, tgt. split; [exact Hp|]. split; [unfold ha_marginal; rewrite Et; reflexivity|exact Hinf].
   Qed.
 End WholeRefusal.
+
+(* ------------------------------------------------------------------ _adj_coef never divides by zero from a state satisfying the invariant *)
+Section NoZeroDiv.
+  Variable q : Q.
+  Variable res : mat.
+  Variables DL PL : list C.
+  Notation step := (scan_cell q res DL PL).
+
+  Lemma step_zerodiv st cell : sc_zerodiv (step st cell) = true ->
+    sc_zerodiv st = true \/ (condA q res DL PL cell /\ (snd cell == 0)%Q).
+  Proof.
+    destruct cell as [[i j] x]. unfold scan_cell, condA. cbn [fst snd].
+    destruct (sc_zerodiv st) eqn:Ez; [auto|].
+    destruct (cmem i DL) eqn:Ei, (cmem j PL) eqn:Ej; cbn [eqb negb andb]; try (intros H; rewrite Ez in H; discriminate).
+    - destruct (Qpos_b (signpost q (mget res i j))) eqn:Es; [|intros H; rewrite Ez in H; discriminate].
+      destruct (Qeq_bool x 0) eqn:Ex.
+      + intros _. right. split; [split; [reflexivity|split; [reflexivity|apply Qpos_b_iff, Es]]|apply Qeq_bool_iff, Ex].
+      + destruct (Qpos_b (signpost q (mget res i j) / x - sc_alpha st)); cbn [sc_zerodiv]; intros H; [discriminate|rewrite Ez in H; discriminate].
+    - destruct (Qpos_b x); [|intros H; rewrite Ez in H; discriminate].
+      destruct (sc_beta st) as [b0|]; [destruct (Qpos_b (b0 - (signpost q (mget res i j) + 1) / x))|]; cbn [sc_zerodiv]; intros H;
+        try discriminate; rewrite Ez in H; discriminate.
+  Qed.
+  Lemma scan_zerodiv : forall cells st, sc_zerodiv (fold_left step cells st) = true ->
+    sc_zerodiv st = true \/ exists cell, In cell cells /\ condA q res DL PL cell /\ (snd cell == 0)%Q.
+  Proof.
+    induction cells as [|cell cells IH]; intros st H; simpl in H; [auto|].
+    destruct (IH _ H) as [H1|(c & Hc & H1)]; [|right; exists c; split; [right; exact Hc|exact H1]].
+    destruct (step_zerodiv st cell H1) as [H2|H2]; [auto|]. right. exists cell. split; [left; reflexivity|exact H2].
+  Qed.
+End NoZeroDiv.
+
+Lemma adj_no_zerodiv q votes pseats s DL PL : wf_votes votes -> BInv q votes pseats s ->
+  adj_coef q (calc_quots votes (b_rho s) (b_gamma s)) (b_res s) DL PL <> AdjZeroDivision.
+Proof.
+  intros Hwf I. unfold adj_coef.
+  destruct (sc_zerodiv (fold_left (scan_cell q (b_res s) DL PL) (cells_of (calc_quots votes (b_rho s) (b_gamma s))) (mk_scan 0 None false))) eqn:Ez.
+  - exfalso. destruct (scan_zerodiv q (b_res s) DL PL _ _ Ez) as [H|([[i j] x] & Hc & (_ & _ & Hsg) & Hx)]; [discriminate|].
+    destruct (cells_of_quots votes _ _ _ Hwf Hc) as (Hi & Hj & Ex). cbn [fst snd] in *.
+    pose proof (bi_cells _ _ _ _ I i j Hi Hj) as (_ & W1 & _). rewrite <- Ex in W1. lra.
+  - destruct (sc_beta _); discriminate.
+Qed.
+
+Lemma bstep_no_zerodiv q votes pseats tgt dorder s : wf_votes votes -> BInv q votes pseats s ->
+  bstep q votes tgt dorder s <> Stop BP_zero_division.
+Proof.
+  intros Hwf I. unfold bstep. cbv zeta.
+  assert (Hb : forall under over, bstep_body q votes s under over <> Stop BP_zero_division).
+  { intros under over. unfold bstep_body.
+    destruct (labeled q (parties votes) (districts votes) _ (b_res s) under over) as [LD LP| |]; try discriminate.
+    destruct (sort_pos (filter (fun i => dmem LD i) under)) as [|start rest].
+    - pose proof (adj_no_zerodiv q votes pseats s (map fst LD) (map fst LP) Hwf I) as Hn.
+      destruct (adj_coef q _ (b_res s) (map fst LD) (map fst LP)) as [a|]; [|congruence].
+      destruct (Qeq_bool a 0 || Qle_bool 1 a); discriminate.
+    - destruct (walk (S (length LD)) LD LP over start [] []) as [hops| |]; try discriminate.
+      destruct (augment (b_res s) start hops); discriminate. }
+  destruct (fst (unsat dorder (b_res s) tgt)); [destruct (snd (unsat dorder (b_res s) tgt)); [discriminate|]|]; apply Hb.
+Qed.
+
+Lemma bloop_no_zerodiv q votes pseats tgt dorder : (0 <= q)%Q -> (q < 1)%Q -> wf_votes votes ->
+  forall fuel s, BInv q votes pseats s -> bloop q votes tgt dorder fuel s <> BP_zero_division.
+Proof.
+  intros Hq0 Hq1 Hwf. induction fuel as [|f IH]; intros s I; simpl; [discriminate|].
+  pose proof (bstep_inv q Hq0 Hq1 votes Hwf pseats tgt dorder s I) as I'.
+  pose proof (bstep_no_zerodiv q votes pseats tgt dorder s Hwf I) as Hn.
+  destruct (bstep q votes tgt dorder s) as [|s'|r]; [discriminate|apply (IH s' I')|congruence].
+Qed.
+
+Lemma evaluate_core_no_zerodiv d q k votes tgt dorder strict n fuel :
+  (0 <= q)%Q -> (q < 1)%Q -> (0 < k)%Q -> (forall s, d s == k * (inject_Z s + 1 - q))%Q ->
+  wf_votes votes -> (forall i j, 0 <= mget votes i j) -> 0 <= n ->
+  strict = true \/ (exists i j, 0 < mget votes i j) ->
+  evaluate_core d q votes tgt dorder strict n fuel <> BP_zero_division.
+Proof.
+  intros Hq0 Hq1 Hk Hd Hwf Hv Hn Hs. unfold evaluate_core. destruct (refuses_empty votes strict) eqn:Er; [discriminate|].
+  pose proof (not_refused_some votes Hwf Hv strict Hs Er) as Hsome.
+  destruct (binit d q votes n) as [e|s] eqn:Ei; [unfold binit in Ei; destruct (initial_solution d votes n); try discriminate; injection Ei as <-; discriminate|].
+  destruct (binit_inv d q k Hq0 Hq1 Hk Hd votes Hwf Hv Hsome n Hn s Ei) as (pseats & _ & I).
+  apply (bloop_no_zerodiv q votes pseats tgt dorder Hq0 Hq1 Hwf fuel s I).
+Qed.
